@@ -184,3 +184,18 @@ Theorem single_instance_on_demand_load_refuted :
     /\ static_ok (mkView L M arule (c_known c) (c_disabled c) (c_load c) []) t = true
     /\ qualifies (mkView L M arule (c_known c) (c_disabled c) (app_start_load true procs) []) [] t = true.
 Proof. exact single_instance_on_demand_load_refuted. Qed.
+
+(* C: non-distributed application validated once at before(): load that arrives on the node afterwards is not re-checked
+   when the later sequence groups are requested (validated 10 + 80, requested 40 on a node that carries 70 by then) *)
+Theorem non_distributed_no_recheck_refuted :
+  exists s local L0 L1 M arule procs J c J' c' t,
+    nodes_nodup L1 = true /\ nodes_consistent L1 = true /\ layout_wf L1 [] = true
+    /\ j_planned J = [c] /\ j_identifiers J = []
+    /\ job_before D_SINGLE_INSTANCE s local L0 M arule true procs J = Ok J'
+    /\ j_identifiers J' = [t] /\ j_planned J' = [c']
+    /\ qualifies (mkView L0 M arule (c_known c) (c_disabled c) (app_start_load true procs) []) [] t = true
+    /\ process_job D_SINGLE_INSTANCE s local L1 M [wildcard] (mkJobs [] [] [t]) c' = Ok (Sent t)
+    /\ request_ok (mkView L1 M arule (c_known c) (c_disabled c) (c_load c) []) t = false
+    /\ static_ok (mkView L1 M arule (c_known c) (c_disabled c) (c_load c) []) t = true
+    /\ existsb (fun p => Z.ltb 0 (ap_seq p) && Z.eqb (ap_load p) (c_load c)) procs = true.
+Proof. exact non_distributed_no_recheck_refuted. Qed.
